@@ -28,11 +28,20 @@ struct Case {
     entries: BTreeMap<Vec<u8>, bool>,
     /// directory (relative, "" = root) -> content of its .gitignore
     ignores: BTreeMap<Vec<u8>, Vec<u8>>,
+    /// entries (non-directories in `entries`) that are symbolic links: path -> target (never followed)
+    links: BTreeMap<Vec<u8>, Vec<u8>>,
 }
 
 impl Case {
     fn line(&self) -> String {
-        let e: Vec<String> = self.entries.iter().map(|(p, d)| format!("{}:{}", hex(p), if *d { "d" } else { "f" })).collect();
+        let e: Vec<String> = self
+            .entries
+            .iter()
+            .map(|(p, d)| match self.links.get(p) {
+                Some(t) => format!("{}:l{}", hex(p), hex(t)),
+                None => format!("{}:{}", hex(p), if *d { "d" } else { "f" }),
+            })
+            .collect();
         let i: Vec<String> = self.ignores.iter().map(|(d, c)| format!("{}:{}", hex(d), hex(c))).collect();
         format!("tree ci={} E={} I={}", self.ci as u8, e.join(","), if i.is_empty() { "-".to_string() } else { i.join(",") })
     }
@@ -43,9 +52,14 @@ impl Case {
         }
         let ci = parts[1] == "ci=1";
         let mut entries = BTreeMap::new();
+        let mut links = BTreeMap::new();
         for e in parts[2].strip_prefix("E=")?.split(',').filter(|x| !x.is_empty()) {
             let (p, k) = e.split_once(':')?;
-            entries.insert(unhex(p)?, k == "d");
+            let path = unhex(p)?;
+            if let Some(t) = k.strip_prefix('l') {
+                links.insert(path.clone(), unhex(t)?);
+            }
+            entries.insert(path, k == "d");
         }
         let mut ignores = BTreeMap::new();
         let i = parts[3].strip_prefix("I=")?;
@@ -55,7 +69,7 @@ impl Case {
                 ignores.insert(unhex(d)?, unhex(c)?);
             }
         }
-        Some(Case { ci, entries, ignores })
+        Some(Case { ci, entries, ignores, links })
     }
 }
 
@@ -65,10 +79,21 @@ const NAMES: &[&str] = &[
     "a", "b", "A", "ab", "a.", "a.b", ".a", "-", "a-b", "b.a", "a..", "..a", "B.a", "a*", "*", "[", "[a]", "a[", "-a", "aA",
     // leading / inner blanks and tabs (git keeps them: only trailing spaces are trimmed)
     " a", "a b", "\ta", " lead", "a\tb", "a\t",
+    // non-ASCII names (patterns are byte strings for git; `?` and classes work on bytes on both sides)
+    "é", "aé.b", "日",
 ];
 
 fn gen_tree(rng: &mut Rng, c: &mut Case, dir: &[u8], depth: usize) {
     let n = if depth == 0 { rng.range(2, 5) } else { rng.range(1, 4) };
+    if rng.chance(1, 25) {
+        // a name that is not UTF-8 (Latin-1 "aé")
+        let mut p = dir.to_vec();
+        if !p.is_empty() {
+            p.push(b'/');
+        }
+        p.extend(b"a\xe9");
+        c.entries.insert(p, false);
+    }
     let mut used: BTreeSet<&str> = BTreeSet::new();
     for _ in 0..n {
         let name = *rng.pick(NAMES);
@@ -80,6 +105,13 @@ fn gen_tree(rng: &mut Rng, c: &mut Case, dir: &[u8], depth: usize) {
             p.push(b'/');
         }
         p.extend(name.as_bytes());
+        if rng.chance(1, 12) {
+            // a symbolic link (to a sibling directory, a sibling file, or nowhere); never followed
+            let target: &[u8] = [&b"a"[..], b"b", b"ab", b"nowhere", b"."][rng.below(5)];
+            c.entries.insert(p.clone(), false);
+            c.links.insert(p.clone(), target.to_vec());
+            continue;
+        }
         let is_dir = depth < 3 && rng.chance(2, 5);
         c.entries.insert(p.clone(), is_dir);
         if is_dir {
@@ -170,6 +202,7 @@ fn gen_line(rng: &mut Rng, c: &Case, dir: &[u8], odd: bool) -> String {
     match rng.below(24) {
         0 => return "# comment".into(),
         1 => return ["", "  ", "#", "\\#a", "\\!a", "!", "/", "*", "**", "**/", "/*", "*/", "/**", "!*", "!*/", "!/", "! ", "\\/"][rng.below(if odd { 18 } else { 17 })].into(),
+        2 if rng.chance(1, 3) => return ["[é]", "?", "??", "a?.b", "[a-é]*", "é*", "*é"][rng.below(7)].into(),
         _ => {}
     }
     let (rel, is_dir) = if below.is_empty() || rng.chance(1, 8) {
@@ -229,7 +262,7 @@ fn gen_line(rng: &mut Rng, c: &Case, dir: &[u8], odd: bool) -> String {
 /// directories.
 fn gen_family_case(rng: &mut Rng) -> Case {
     const PLAIN: &[&str] = &["a", "b", "ab", "abc", "a.b", "b.a", "x.log", "build", "gen", "tmp", "aA", "a-b"];
-    let mut c = Case { ci: rng.chance(1, 8), entries: BTreeMap::new(), ignores: BTreeMap::new() };
+    let mut c = Case { ci: rng.chance(1, 8), entries: BTreeMap::new(), ignores: BTreeMap::new(), links: BTreeMap::new() };
     let nt = rng.range(2, 4);
     let mut targets: Vec<Vec<&str>> = vec![];
     for _ in 0..nt {
@@ -320,7 +353,7 @@ fn gen_family_case(rng: &mut Rng) -> Case {
 }
 
 fn gen_case(rng: &mut Rng) -> Case {
-    let mut c = Case { ci: rng.chance(1, 5), entries: BTreeMap::new(), ignores: BTreeMap::new() };
+    let mut c = Case { ci: rng.chance(1, 5), entries: BTreeMap::new(), ignores: BTreeMap::new(), links: BTreeMap::new() };
     gen_tree(rng, &mut c, b"", 0);
     let odd = rng.chance(1, 6);
     let mut dirs: Vec<Vec<u8>> = vec![vec![]];
@@ -333,6 +366,41 @@ fn gen_case(rng: &mut Rng) -> Case {
             let mut content = lines.join("\n").into_bytes();
             if rng.chance(4, 5) {
                 content.push(b'\n');
+            }
+            // how the FILE is written: CRLF line ends, a CR at the end of a file without final LF, a byte order
+            // mark, a line that is not UTF-8, a very long line
+            if rng.chance(1, 14) {
+                content = String::from_utf8_lossy(&content).replace('\n', "\r\n").into_bytes();
+            }
+            if rng.chance(1, 16) {
+                while content.last() == Some(&b'\n') || content.last() == Some(&b'\r') {
+                    content.pop();
+                }
+                content.push(b'\r');
+            }
+            if rng.chance(1, 14) {
+                let mut c2 = vec![0xef, 0xbb, 0xbf];
+                c2.extend(&content);
+                content = c2;
+            }
+            if rng.chance(1, 20) {
+                let bad: &[u8] = [&b"a\xe9\n"[..], b"\xff\xfe\n", b"*\xe9\n"][rng.below(3)];
+                let pos = if rng.chance(1, 2) { 0 } else { content.iter().position(|b| *b == b'\n').map(|i| i + 1).unwrap_or(content.len()) };
+                if pos == content.len() && !content.is_empty() && content.last() != Some(&b'\n') {
+                    content.push(b'\n');
+                }
+                let pos = pos.min(content.len());
+                let mut c2 = content[..pos].to_vec();
+                c2.extend(bad);
+                c2.extend(&content[pos..]);
+                content = c2;
+            }
+            if rng.chance(1, 60) {
+                // (moderate lengths: the Lean guards and matchers are quadratic in the line length)
+                let long = if rng.chance(1, 2) { "x".repeat(600) } else { format!("{}a", "*/".repeat(40)) };
+                let mut c2 = format!("{}\n", long).into_bytes();
+                c2.extend(&content);
+                content = c2;
             }
             c.ignores.insert(d, content);
         }
@@ -375,7 +443,9 @@ fn materialise(env: &mut Env, c: &Case) -> PathBuf {
             if let Some(parent) = full.parent() {
                 std::fs::create_dir_all(parent).unwrap();
             }
-            if !p.ends_with(b".gitignore") {
+            if let Some(t) = c.links.get(p) {
+                std::os::unix::fs::symlink(os(t), &full).unwrap();
+            } else if !p.ends_with(b".gitignore") {
                 std::fs::write(&full, b"x\n").unwrap();
             }
         }
@@ -449,10 +519,20 @@ fn cps(line: &str) -> String {
     format!("(l {})", v.join(" ")).replace(" )", ")")
 }
 
+/// the lines `GitignoreBuilder::add` hands to `add_line`: `BufRead::lines()` up to the first chunk that is not UTF-8
+/// (there `add` stops reading)
 fn content_lines(content: &[u8]) -> Vec<String> {
-    // BufRead::lines
-    let s = String::from_utf8_lossy(content).to_string();
-    s.lines().map(|l| l.to_string()).collect()
+    let mut out = vec![];
+    for chunk in content.split_inclusive(|b| *b == b'\n') {
+        match std::str::from_utf8(chunk) {
+            Err(_) => break,
+            Ok(s) => {
+                let s = s.strip_suffix('\n').map(|s| s.strip_suffix('\r').unwrap_or(s)).unwrap_or(s);
+                out.push(s.to_string());
+            }
+        }
+    }
+    out
 }
 
 /// the class predicates of the known findings, computed on the lines of the case
@@ -526,20 +606,204 @@ fn line_has_prefix_then_dstar(line: &str) -> bool {
     j == b.len() || b[j] == b'/' || (b[j] == b'\\' && j + 1 < b.len() && b[j + 1] == b'/')
 }
 
-fn classify(c: &Case) -> &'static str {
-    for content in c.ignores.values() {
+/// globset has no escapes inside a bracket class (`[\\]]` is the class of the backslash followed by a literal `]`),
+/// git's wildmatch reads `\\x` inside brackets as the character x: a line with a backslash between an unescaped
+/// `[` and the `]` that closes it for ripgrep
+fn line_has_backslash_in_class(line: &str) -> bool {
+    let b = line.as_bytes();
+    let mut i = 0;
+    while i < b.len() {
+        match b[i] {
+            b'\\' => i += 2,
+            b'[' => {
+                let mut j = i + 1;
+                if j < b.len() && (b[j] == b'!' || b[j] == b'^') {
+                    j += 1;
+                }
+                let first = j;
+                let mut bs = false;
+                while j < b.len() && (b[j] != b']' || j == first) {
+                    if b[j] == b'\\' {
+                        bs = true;
+                    }
+                    j += 1;
+                }
+                if j < b.len() && bs {
+                    return true;
+                }
+                i = j + 1;
+            }
+            _ => i += 1,
+        }
+    }
+    false
+}
+
+/// ripgrep rejects a line whose glob has a reversed class range (`[bz-a]`: "invalid range") and drops it with an
+/// error message; git never rejects a pattern, a reversed range is simply empty
+fn line_is_rejected_for_invalid_range(line: &str) -> bool {
+    let mut b = GitignoreBuilder::new("");
+    match b.add_line(None, line) {
+        Err(e) => e.to_string().contains("invalid range"),
+        Ok(_) => false,
+    }
+}
+
+/// Attribution of ONE disagreeing path to a known-finding class.  A class is attributed only when its own
+/// mechanism is demonstrably at work for this very path:
+///   (a) the caller has checked that the model (which mirrors the recorded behaviour) predicts ripgrep's answer
+///       and that the spec predicts git's — a deviation the model does not predict is never excused;
+///   (b) an ignore file in a directory above the path has a line with the class's syntactic feature, and for that
+///       very line ripgrep's reading and git's reading (the two sides of `LineAgree`, driver op `c04.hit`) differ on
+///       this path or on one of the directories leading to it (an ignored / re-included directory decides for
+///       everything below it).  `bracket-class-admits-slash`: additionally the relative path on which they differ
+///       contains a '/' — the byte the class has to consume; `literal-prefix-then-double-star`: the line has `**`
+///       directly after a literal prefix that does not end in '/'; `backslash-inside-class`: the line has a
+///       backslash inside a bracket expression; `reversed-range-line-rejected`: the real `add_line` rejects the line
+///       with "invalid range".
+fn mechanism_at_work(c: &Case, p: &[u8], is_dir: bool, feature: fn(&str) -> bool, need_slash: bool, drv: &mut Driver) -> bool {
+    for (d, content) in &c.ignores {
+        let below: &[u8] = if d.is_empty() {
+            p
+        } else if p.len() > d.len() + 1 && p.starts_with(d) && p[d.len()] == b'/' {
+            &p[d.len() + 1..]
+        } else {
+            continue;
+        };
+        let comps: Vec<&[u8]> = below.split(|b| *b == b'/').collect();
         for l in content_lines(content) {
-            if line_has_class_admitting_slash(&l) {
-                return "bracket-class-admits-slash";
+            if !feature(&l) {
+                continue;
+            }
+            for k in 1..=comps.len() {
+                if need_slash && k < 2 {
+                    continue;
+                }
+                let q_is_dir = k < comps.len() || is_dir;
+                let rel: Vec<String> = comps[..k].iter().map(|x| hex(x)).collect();
+                let m = drv.ask(&format!("c04.hit {} {} ({} {})", c.ci as u8, cps(&l), q_is_dir as u8, rel.join(" ")));
+                let b = m.as_bytes();
+                if b.len() == 2 && b[0] != b[1] {
+                    return true;
+                }
             }
         }
     }
-    for content in c.ignores.values() {
-        for l in content_lines(content) {
-            if line_has_prefix_then_dstar(&l) {
-                return "literal-prefix-then-double-star";
+    false
+}
+
+/// Reading-level classes: ripgrep's reader (`GitignoreBuilder::add`: `BufRead::lines`, no BOM handling, stops at a
+/// line that is not UTF-8) and git's reader (`add_patterns_from_buffer`: skips a BOM, supplies the final LF, strips a CR
+/// before LF, never decodes) produce different lines from the same file.  Mechanism test = counterfactual repair: an
+/// ignore file in a directory above the path shows the cause, and with exactly that cause removed from those files
+/// (everything else untouched) model and spec agree on this path.
+fn reader_mechanism(c: &Case, p: &[u8], is_dir: bool, repair: fn(&[u8]) -> Option<Vec<u8>>, drv: &mut Driver) -> bool {
+    let mut changed = false;
+    let mut igns = vec![];
+    for (d, content) in &c.ignores {
+        let above = d.is_empty() || (p.len() > d.len() + 1 && p.starts_with(d) && p[d.len()] == b'/');
+        let content2 = match (above, repair(content)) {
+            (true, Some(r)) => {
+                changed = true;
+                r
+            }
+            _ => content.clone(),
+        };
+        let comps: Vec<String> = d.split(|b| *b == b'/').filter(|x| !x.is_empty()).map(|x| hex(x)).collect();
+        igns.push(format!("(ign (d {}) (bytes {}))", comps.join(" "), hex(&content2)).replace(" )", ")"));
+    }
+    if !changed {
+        return false;
+    }
+    let pcomps: Vec<String> = p.split(|b| *b == b'/').map(|x| hex(x)).collect();
+    let m = drv.ask(&format!("c04.tree {} (igns {}) (paths ({} {}))", c.ci as u8, igns.join(" "), is_dir as u8, pcomps.join(" ")));
+    let b = m.get(3..).unwrap_or("").as_bytes();
+    b.len() == 2 && b[0] == b[1]
+}
+
+/// the file starts with a UTF-8 byte order mark: git skips it, ripgrep makes it part of the first pattern
+fn repair_bom(content: &[u8]) -> Option<Vec<u8>> {
+    content.strip_prefix(&[0xef, 0xbb, 0xbf][..]).map(|r| r.to_vec())
+}
+
+/// the file does not end in LF and its last byte is CR: git supplies the LF and then drops the CR before it,
+/// `BufRead::lines` leaves the CR in the last line (and since 5031338 `add_line` no longer trims it)
+fn repair_cr_at_eof(content: &[u8]) -> Option<Vec<u8>> {
+    if content.last() == Some(&b'\r') {
+        let mut r = content.to_vec();
+        r.push(b'\n');
+        Some(r)
+    } else {
+        None
+    }
+}
+
+/// a line is not valid UTF-8: `GitignoreBuilder::add` stops reading there (error, `break`), so the REST of the file is
+/// lost; git reads on (patterns are byte strings)
+fn repair_invalid_utf8(content: &[u8]) -> Option<Vec<u8>> {
+    let mut out = vec![];
+    let mut bad = false;
+    for chunk in content.split_inclusive(|b| *b == b'\n') {
+        if std::str::from_utf8(chunk).is_err() {
+            bad = true;
+        } else {
+            out.extend(chunk);
+        }
+    }
+    if bad {
+        Some(out)
+    } else {
+        None
+    }
+}
+
+fn repair_all_reading(content: &[u8]) -> Option<Vec<u8>> {
+    let mut cur = content.to_vec();
+    let mut any = false;
+    for f in [repair_bom as fn(&[u8]) -> Option<Vec<u8>>, repair_invalid_utf8, repair_cr_at_eof] {
+        if let Some(r) = f(&cur) {
+            cur = r;
+            any = true;
+        }
+    }
+    if any {
+        Some(cur)
+    } else {
+        None
+    }
+}
+
+fn classify_path(c: &Case, p: &[u8], is_dir: bool, drv: &mut Driver) -> &'static str {
+    if reader_mechanism(c, p, is_dir, repair_bom, drv) {
+        return "bom-not-skipped";
+    }
+    if reader_mechanism(c, p, is_dir, repair_cr_at_eof, drv) {
+        return "cr-at-eof-kept";
+    }
+    if reader_mechanism(c, p, is_dir, repair_invalid_utf8, drv) {
+        return "invalid-utf8-line-stops-reading";
+    }
+    // several reading-level causes in the files above the path at once: only removing all of them restores the
+    // agreement; attributed to the first cause present
+    if reader_mechanism(c, p, is_dir, repair_all_reading, drv) {
+        let above = |d: &Vec<u8>| d.is_empty() || (p.len() > d.len() + 1 && p.starts_with(d) && p[d.len()] == b'/');
+        for (name, f) in [("bom-not-skipped", repair_bom as fn(&[u8]) -> Option<Vec<u8>>), ("invalid-utf8-line-stops-reading", repair_invalid_utf8), ("cr-at-eof-kept", repair_cr_at_eof)] {
+            if c.ignores.iter().any(|(d, content)| above(d) && f(content).is_some()) {
+                return name;
             }
         }
+    }
+    if mechanism_at_work(c, p, is_dir, line_has_class_admitting_slash, true, drv) {
+        return "bracket-class-admits-slash";
+    }
+    if mechanism_at_work(c, p, is_dir, line_has_prefix_then_dstar, false, drv) {
+        return "literal-prefix-then-double-star";
+    }
+    if mechanism_at_work(c, p, is_dir, line_has_backslash_in_class, false, drv) {
+        return "backslash-inside-class";
+    }
+    if mechanism_at_work(c, p, is_dir, line_is_rejected_for_invalid_range, false, drv) {
+        return "reversed-range-line-rejected";
     }
     ""
 }
@@ -668,8 +932,7 @@ fn run_case(c: &Case, env: &mut Env, drv: &mut Driver, rep: &mut Report, quiet: 
     let mut igns = vec![];
     for (d, content) in &c.ignores {
         let comps: Vec<String> = d.split(|b| *b == b'/').filter(|x| !x.is_empty()).map(|x| hex(x)).collect();
-        let ls: Vec<String> = content_lines(content).iter().map(|l| cps(l)).collect();
-        igns.push(format!("(ign (d {}) (lines {}))", comps.join(" "), ls.join(" ")).replace(" )", ")"));
+        igns.push(format!("(ign (d {}) (bytes {}))", comps.join(" "), hex(content)).replace(" )", ")"));
     }
     let mut paths = vec![];
     for (p, d) in &c.entries {
@@ -685,10 +948,9 @@ fn run_case(c: &Case, env: &mut Env, drv: &mut Driver, rep: &mut Report, quiet: 
         std::fs::remove_dir_all(&root).ok();
         return out;
     }
-    let class = classify(c);
     let mut any_ignored = false;
     let mut any_kept = false;
-    for (i, (p, _d)) in c.entries.iter().enumerate() {
+    for (i, (p, is_dir)) in c.entries.iter().enumerate() {
         if !quiet {
             rep.eval();
         }
@@ -705,6 +967,15 @@ fn run_case(c: &Case, env: &mut Env, drv: &mut Driver, rep: &mut Report, quiet: 
             out.push(mk("impl_vs_model", "", TIE_WALK, format!("path {:?}: walker skips = {}, model = {}", show(p), imp, mm)));
         }
         if imp != g {
+            // excused only if the model predicts exactly this deviation AND the class's mechanism is at work here
+            let class = if imp == mm && mm != ms && ms == g { classify_path(c, p, *is_dir, drv) } else { "" };
+            if !quiet {
+                if class.is_empty() {
+                    rep.branch("class:none:unclassified-deviation");
+                } else {
+                    rep.branch(&format!("class:{}:attributed", class));
+                }
+            }
             out.push(mk("impl_vs_spec", class, TIE_GIT, format!("path {:?}: ripgrep skips = {}, git ignores = {}", show(p), imp, g)));
         }
         if guard && mm != ms {
@@ -737,6 +1008,8 @@ fn run_case(c: &Case, env: &mut Env, drv: &mut Driver, rep: &mut Report, quiet: 
     out
 }
 
+static SHRUNK: std::sync::Mutex<BTreeMap<String, usize>> = std::sync::Mutex::new(BTreeMap::new());
+
 fn run_and_report(c: &Case, env: &mut Env, drv: &mut Driver, rep: &mut Report) {
     let vs = run_case(c, env, drv, rep, false);
     let mut seen: Vec<(String, String, String)> = vec![];
@@ -746,6 +1019,17 @@ fn run_and_report(c: &Case, env: &mut Env, drv: &mut Driver, rep: &mut Report) {
             continue;
         }
         seen.push(key);
+        // a recorded class is shrunk only the first two times it shows up in a run (shrinking re-runs git many times)
+        if !v.class.is_empty() {
+            let mut m = SHRUNK.lock().unwrap();
+            let n = m.entry(v.class.clone()).or_insert(0);
+            *n += 1;
+            if *n > 2 {
+                drop(m);
+                rep.violation(v);
+                continue;
+            }
+        }
         // shrink: drop ignore files, then lines, then entries
         let mut cur = c.clone();
         let same = |cand: &Case, env: &mut Env, drv: &mut Driver, rep: &mut Report| -> Option<Violation> {
@@ -810,7 +1094,7 @@ fn main() {
          Trees: depth <= 4, names over {a,b,A,.,-,*,[,]} (dots first/last, dashes, upper case, names that look like globs); .gitignore at 0-3 levels; lines from the gitignore grammar \
          (literals, *, ?, classes, ** in its three positions, leading/inner slash, trailing slash, !, \\#, \\!, comments, blanks, trailing blanks, escaped trailing blank), steered towards names that exist; \
          with and without case-insensitive matching. Left open by git/the documentation and therefore generated only at low rate and never alarmed on beyond their recorded class: \
-         bracket expressions that admit '/', '**' that is not a whole component, a '-' directly after a class range, '\\' inside a class, POSIX [:classes:], upper-case letters inside classes or after '\\' under ignorecase, non-UTF-8 ignore files.",
+         bracket expressions that admit '/', '**' that is not a whole component, a '-' directly after a class range, POSIX [:classes:], upper-case letters inside classes or after '\\' under ignorecase, non-UTF-8 ignore files.",
     );
     std::fs::create_dir_all(&args.scratch).unwrap();
     let git_dir = args.scratch.join("gitdir");
